@@ -208,8 +208,10 @@ func TestFuzzSeeds(t *testing.T) {
 			stats.Check(t, FuzzCase{Target: part.target, Data: hexEncode(s)}, checkFuzz)
 		}
 	}
-	stats.G().Extra("fuzz-seed-corpus-decode", uint64(len(decodeSeedCorpus)))
-	stats.G().Extra("fuzz-seed-corpus-text", uint64(len(textCorpus)))
+	if idx == 0 {
+		stats.G().Extra("fuzz-seed-corpus-decode", uint64(len(decodeSeedCorpus)))
+		stats.G().Extra("fuzz-seed-corpus-text", uint64(len(textCorpus)))
+	}
 }
 
 // parseGoFuzzFile reads a corpus / crasher file in Go's native fuzz format
